@@ -59,12 +59,21 @@ structure Grant where
 structure St where
   cfg    : Cfg
   stored : Option Nat := none
+  /-- the largest window persisted under the same root by *other* allocators (the dc-location allocators'
+      windows, for the global allocator): `loadTimestamp` takes the maximum over all of them -/
+  ext    : Option Nat := none
   leader : Nat := 0                  -- member id in the leader record, 0 = none
   mems   : Nat → Mem := fun _ => {}
   grants : List Grant := []          -- ghost, newest first
 
 def St.setMem (s : St) (m : Nat) (x : Mem) : St :=
   { s with mems := fun i => if i = m then x else s.mems i }
+
+def optMax (a b : Option Nat) : Option Nat :=
+  match a, b with
+  | none, b => b
+  | a, none => a
+  | some x, some y => some (max x y)
 
 inductive Fault where
   | none | errBefore | errAfter
@@ -207,6 +216,7 @@ inductive Op where
   | finish (m : Nat) (f : Fault)                       -- release the parked call
   | setTS (m : Nat) (ms logical : Nat) (ignoreSmaller : Bool) (f : Fault)
   | resetMem (m : Nat)
+  | extWin (v : Nat)                                   -- another allocator under the same root persists window v
   deriving Repr, DecidableEq
 
 def step (s : St) : Op → St × Out
@@ -241,11 +251,11 @@ def step (s : St) : Op → St × Out
     | some (next, some sv) => (s.setMem m { x with pend := some (.upd next (some sv)) }, .parked)
   | .sync m now f =>
     let x := s.mems m
-    if x.pend.isSome then (s, .blocked) else syncFinish s m s.stored now f
+    if x.pend.isSome then (s, .blocked) else syncFinish s m (optMax s.stored s.ext) now f
   | .gsync m now =>
     let x := s.mems m
     if x.pend.isSome then (s, .blocked) else
-    (s.setMem m { x with pend := some (.sync s.stored now) }, .parked)
+    (s.setMem m { x with pend := some (.sync (optMax s.stored s.ext) now) }, .parked)
   | .finish m f =>
     match (s.mems m).pend with
     | none => (s, .bad)
@@ -257,6 +267,7 @@ def step (s : St) : Op → St × Out
   | .resetMem m =>
     let x := s.mems m
     (s.setMem m { x with phys := none, logical := 0 }, .ok)
+  | .extWin v => ({ s with ext := some v }, .ok)
 
 def init (c : Cfg) : St := { cfg := c }
 
